@@ -14,6 +14,11 @@
   earlycontinue : `for ...: if c: BODY` -> `for ...: if not c: continue; BODY`
   positional : keyword arguments of calls that resolve to repository functions are passed by position where the order allows
   keywords : positional arguments of such calls are passed by keyword
+  notin    : `a not in b` -> `not a in b`, `a is not b` -> `not a is b`
+  demorgan : `not (a or b)` -> `not a and not b`, `not (a and b)` -> `not a or not b`
+  ifexp    : `x = a if c else b` -> `if c: x = a` / `else: x = b`
+  recvtemp : `p.q.m(...)` as a statement / assigned / returned -> `_vN = p.q; _vN.m(...)`
+  argtemp  : the first call-valued argument of a statement-level call is computed into a local first (`f(g(x))` -> `_aN = g(x); f(_aN)`)
 
 usage: python -m selftest.transforms [reformat|rename|pad|all]   (exit 2 when a verdict changes)
 """
@@ -382,6 +387,118 @@ class Keywords(ast.NodeTransformer):
         return node
 
 
+class NotIn(ast.NodeTransformer):
+    def visit_Compare(self, node):
+        self.generic_visit(node)
+        if len(node.ops) == 1 and isinstance(node.ops[0], (ast.NotIn, ast.IsNot)):
+            op = ast.In() if isinstance(node.ops[0], ast.NotIn) else ast.Is()
+            return ast.copy_location(ast.UnaryOp(op=ast.Not(), operand=ast.Compare(left=node.left, ops=[op], comparators=node.comparators)), node)
+        return node
+
+
+class DeMorgan(ast.NodeTransformer):
+    def visit_UnaryOp(self, node):
+        self.generic_visit(node)
+        if isinstance(node.op, ast.Not) and isinstance(node.operand, ast.BoolOp):
+            b = node.operand
+            op = ast.And() if isinstance(b.op, ast.Or) else ast.Or()
+            return ast.copy_location(ast.BoolOp(op=op, values=[ast.UnaryOp(op=ast.Not(), operand=v) for v in b.values]), node)
+        return node
+
+
+class IfExpStmt(ast.NodeTransformer):
+    def _block(self, stmts):
+        out = []
+        for st in stmts:
+            if isinstance(st, ast.Assign) and isinstance(st.value, ast.IfExp) and len(st.targets) == 1 and isinstance(st.targets[0], ast.Name):
+                t = st.targets[0].id
+                e = st.value
+                mk = lambda v: ast.copy_location(ast.Assign(targets=[ast.Name(id=t, ctx=ast.Store())], value=v), st)  # noqa: E731
+                out.append(ast.copy_location(ast.If(test=e.test, body=[mk(e.body)], orelse=[mk(e.orelse)]), st))
+            else:
+                out.append(st)
+        return out
+
+    def generic_visit(self, node):
+        super().generic_visit(node)
+        for fld in ("body", "orelse", "finalbody"):
+            v = getattr(node, fld, None)
+            if isinstance(v, list) and v and isinstance(v[0], ast.stmt) and not isinstance(node, (ast.Module, ast.ClassDef)):
+                setattr(node, fld, self._block(v))
+        return node
+
+
+class RecvTemp(ast.NodeTransformer):
+    def __init__(self):
+        self.n = 0
+
+    def _chain(self, e):
+        d = 0
+        while isinstance(e, ast.Attribute):
+            e = e.value
+            d += 1
+        return d if isinstance(e, ast.Name) else -1
+
+    def _block(self, stmts):
+        out = []
+        for st in stmts:
+            call = st.value if isinstance(st, (ast.Expr, ast.Return, ast.Assign)) and isinstance(getattr(st, "value", None), ast.Call) else None
+            if call is not None and isinstance(call.func, ast.Attribute) and self._chain(call.func.value) >= 1:
+                self.n += 1
+                nm = "_v%d" % self.n
+                out.append(ast.copy_location(ast.Assign(targets=[ast.Name(id=nm, ctx=ast.Store())], value=call.func.value), st))
+                call.func.value = ast.copy_location(ast.Name(id=nm, ctx=ast.Load()), call.func)
+            out.append(st)
+        return out
+
+    def generic_visit(self, node):
+        super().generic_visit(node)
+        for fld in ("body", "orelse", "finalbody"):
+            v = getattr(node, fld, None)
+            if isinstance(v, list) and v and isinstance(v[0], ast.stmt) and not isinstance(node, (ast.Module, ast.ClassDef)):
+                setattr(node, fld, self._block(v))
+        return node
+
+
+class ArgTemp(ast.NodeTransformer):
+    """`f(a, g(x))` as a whole statement / assigned / returned -> `_aN = g(x); f(a, _aN)` (earlier arguments must be plain)."""
+
+    def __init__(self):
+        self.n = 0
+
+    def _plain(self, e):
+        return isinstance(e, (ast.Name, ast.Constant)) or (isinstance(e, ast.Attribute) and self._plain(e.value))
+
+    def _block(self, stmts):
+        out = []
+        for st in stmts:
+            call = None
+            if isinstance(st, (ast.Expr, ast.Return)) and isinstance(st.value, ast.Call):
+                call = st.value
+            elif isinstance(st, (ast.Assign, ast.AugAssign)) and isinstance(st.value, ast.Call):
+                call = st.value
+            if call is not None and self._plain(call.func) and not call.keywords:
+                for i, a in enumerate(call.args):
+                    if isinstance(a, ast.Call) and self._plain(a.func):
+                        self.n += 1
+                        nm = "_a%d" % self.n
+                        out.append(ast.copy_location(ast.Assign(targets=[ast.Name(id=nm, ctx=ast.Store())], value=a), st))
+                        call.args[i] = ast.copy_location(ast.Name(id=nm, ctx=ast.Load()), a)
+                        break
+                    if not self._plain(a):
+                        break
+            out.append(st)
+        return out
+
+    def generic_visit(self, node):
+        super().generic_visit(node)
+        for fld in ("body", "orelse", "finalbody"):
+            v = getattr(node, fld, None)
+            if isinstance(v, list) and v and isinstance(v[0], ast.stmt) and not isinstance(node, (ast.Module, ast.ClassDef)):
+                setattr(node, fld, self._block(v))
+        return node
+
+
 def transform(src, kind, rel=None, table=None):
     import warnings
     with warnings.catch_warnings():
@@ -409,6 +526,16 @@ def transform(src, kind, rel=None, table=None):
         tree = AndSplitter().visit(tree)
     elif kind == "extend":
         tree = Extender().visit(tree)
+    elif kind == "argtemp":
+        tree = ArgTemp().visit(tree)
+    elif kind == "notin":
+        tree = NotIn().visit(tree)
+    elif kind == "demorgan":
+        tree = DeMorgan().visit(tree)
+    elif kind == "ifexp":
+        tree = IfExpStmt().visit(tree)
+    elif kind == "recvtemp":
+        tree = RecvTemp().visit(tree)
     elif kind == "positional":
         tree = Positional(rel, table).visit(tree)
     elif kind == "keywords":
@@ -444,7 +571,7 @@ def main(argv):
     import warnings
     warnings.simplefilter("ignore")
     root = os.environ.get("HED_REPO", "/repo")
-    kinds = ["reformat", "rename", "pad", "hoist", "invert", "nest", "splitand", "extend", "retlocal", "swapeq", "unnest", "earlycontinue", "positional", "keywords"] if not argv or argv[0] == "all" else argv
+    kinds = ["reformat", "rename", "pad", "hoist", "invert", "nest", "splitand", "extend", "retlocal", "swapeq", "unnest", "earlycontinue", "positional", "keywords", "argtemp", "notin", "demorgan", "ifexp", "recvtemp"] if not argv or argv[0] == "all" else argv
     srcs = read_sources(root)
     base = verdicts(root, {})
     bad = 0
